@@ -18,6 +18,7 @@ import (
 	"errors"
 	"os"
 	"strings"
+	"sync"
 	"time"
 
 	"github.com/bwmarrin/snowflake"
@@ -111,12 +112,28 @@ func newTx(db *DB, writable bool) (tx *Tx, err error) {
 	return
 }
 
+// txIDNodes holds one id generator per node number for the whole process.
+// A generator only hands out distinct ids if it is reused: a fresh node per
+// transaction restarts the sequence, so every transaction begun in the same
+// millisecond got the same id.
+var (
+	txIDNodesMu sync.Mutex
+	txIDNodes   = make(map[int64]*snowflake.Node)
+)
+
 // getTxID returns the tx id.
 func (tx *Tx) getTxID() (id uint64, err error) {
-	node, err := snowflake.NewNode(tx.db.opt.NodeNum)
-	if err != nil {
-		return 0, err
+	txIDNodesMu.Lock()
+	node, ok := txIDNodes[tx.db.opt.NodeNum]
+	if !ok {
+		node, err = snowflake.NewNode(tx.db.opt.NodeNum)
+		if err != nil {
+			txIDNodesMu.Unlock()
+			return 0, err
+		}
+		txIDNodes[tx.db.opt.NodeNum] = node
 	}
+	txIDNodesMu.Unlock()
 
 	id = uint64(node.Generate().Int64())
 
